@@ -993,3 +993,86 @@ func (p *Program) calleesAt(site ssa.CallInstruction) []*ssa.Function {
 	}
 	return out
 }
+
+func newPtr(t types.Type) types.Type { return types.NewPointer(t) }
+
+// countLoopIter counts instructions satisfying isM on every path of one iteration of
+// loop l: from the loop head's in-loop successors back to the head, staying inside the
+// loop (paths that leave the loop are ignored).
+func countLoopIter(l *loop, isM func(ssa.Instruction) bool) (min, max int, ok bool) {
+	type res struct {
+		min, max int
+		ok       bool
+	}
+	memo := map[*ssa.BasicBlock]res{}
+	on := map[*ssa.BasicBlock]bool{}
+	var walk func(b *ssa.BasicBlock) res
+	walk = func(b *ssa.BasicBlock) res {
+		if b == l.head {
+			return res{0, 0, true}
+		}
+		if !l.blocks[b] {
+			return res{}
+		}
+		if r, ok := memo[b]; ok {
+			return r
+		}
+		if on[b] {
+			return res{}
+		}
+		on[b] = true
+		defer func() { on[b] = false }()
+		n := 0
+		for _, in := range b.Instrs {
+			if isM(in) {
+				n++
+			}
+		}
+		out := res{}
+		for _, s := range b.Succs {
+			r := walk(s)
+			if !r.ok {
+				continue
+			}
+			if !out.ok {
+				out = res{r.min + n, r.max + n, true}
+			} else {
+				if r.min+n < out.min {
+					out.min = r.min + n
+				}
+				if r.max+n > out.max {
+					out.max = r.max + n
+				}
+			}
+		}
+		memo[b] = out
+		return out
+	}
+	nh := 0
+	for _, in := range l.head.Instrs {
+		if isM(in) {
+			nh++
+		}
+	}
+	out := res{}
+	for _, s := range l.head.Succs {
+		if !l.blocks[s] || s == l.head {
+			continue
+		}
+		r := walk(s)
+		if !r.ok {
+			continue
+		}
+		if !out.ok {
+			out = r
+		} else {
+			if r.min < out.min {
+				out.min = r.min
+			}
+			if r.max > out.max {
+				out.max = r.max
+			}
+		}
+	}
+	return out.min + nh, out.max + nh, out.ok
+}
